@@ -20,20 +20,23 @@ package dns
 // the queried name (upper-cased like the owner) the child
 //@ func (*NSEC3).Cover [C17]
 //@   callsite "IsSubDomain" zone: same(arg0, ownerZone) && arg1 == callres("ToUpper")
-//@   assert at "if !IsSubDomain(ownerZone" split: ownerZone == owner[labelIndices[1]:] && ownerHash == owner[:labelIndices[1]-1]
+//@   assert at "if !IsSubDomain(ownerZone" split: len(labelIndices) >= 2 ? (ownerZone == owner[labelIndices[1]:] && ownerHash == owner[:labelIndices[1]-1]) : (isdot(ownerZone) && ownerHash == owner[:len(owner)-1])
 //@   exit zone:     ret0 ==> callres("IsSubDomain")
 //@   exit strict:   ret0 ==> nameHash != ownerHash
 // no name is covered when its hash could not be computed (unknown hash algorithm: HashName returns ""), and the
 // next hashed owner is compared in upper case like the owner hash and the computed hash (base32hex is case
 // insensitive; the zone parser stores the field as written)
 //@   exit hashed:   ret0 ==> len(nameHash) > 0
+// a record of the root zone is owned by <hash>. : its zone is the root, and every name is inside it
+//@   exit rootzone: len(labelIndices) == 1 && IsFqdnSpec(owner) && len(nameHash) > 0 ==> called("IsSubDomain")
 //@   assert after "nextHash := " nextupper: nextHash == callres("ToUpper") && callarg("ToUpper", 0) == rr.NextDomain
 //@   exit interval: callres("IsSubDomain") ==> ret0 == ((ownerHash == nextHash) ? (nameHash != ownerHash) : (strlt(nextHash, ownerHash) ? (strlt(ownerHash, nameHash) || strlt(nameHash, nextHash)) : (strlt(ownerHash, nameHash) && strlt(nameHash, nextHash))))
 
 //@ func (*NSEC3).Match [C17]
 //@   callsite "IsSubDomain" zone: same(arg0, ownerZone) && arg1 == callres("ToUpper")
-//@   assert at "if !IsSubDomain(ownerZone" split: ownerZone == owner[labelIndices[1]:] && ownerHash == owner[:labelIndices[1]-1]
+//@   assert at "if !IsSubDomain(ownerZone" split: len(labelIndices) >= 2 ? (ownerZone == owner[labelIndices[1]:] && ownerHash == owner[:labelIndices[1]-1]) : (isdot(ownerZone) && ownerHash == owner[:len(owner)-1])
 //@   exit match: ret0 == (callres("IsSubDomain") && ownerHash == nameHash)
+//@   exit rootzone: len(labelIndices) == 1 && IsFqdnSpec(owner) && owner[:len(owner)-1] == nameHash ==> ret0
 
 // ---- key tag (RFC 4034 Appendix B) -----------------------------------------------------------------------------
 // ktsum(w, n): the running sum over the first n octets of the DNSKEY RDATA: octets at even positions count
